@@ -19,7 +19,7 @@ from .. import common, gw
 from ..common import Ctx
 
 THEOREMS = ["C15_structure_invariant", "C15_zones_bounded", "C15_one_place", "C15_one_controller", "C15_nothing_moves",
-            "C15_no_silent_move", "C15_zone_keys_valid", "C15_zones_dict_fits", "C15_zone_keys_old_refuted"]
+            "C15_no_silent_move", "C15_child_is_listed", "C15_refused_changes_nothing", "C15_zone_keys_valid", "C15_zones_dict_fits", "C15_zone_keys_old_refuted"]
 
 CTLS = {1: "01:100001", 2: "01:100002"}
 UFCS = {11: "02:100011"}
@@ -138,6 +138,10 @@ async def run_ops(seed, n, max_zones):
                 for ch in par.childs:
                     if getattr(ch, "_parent", None) is not par:
                         stray.append((len(rows) - 1, f"{ch.id} is listed in {par}.childs but its own parent is {getattr(ch, '_parent', None)}"))
+        for k in sorted(DEVS):      # ... and the other way round: a device that has a parent is one of that parent's children
+            par = getattr(dev[k], "_parent", None)
+            if par is not None and hasattr(par, "childs") and dev[k] not in par.childs:
+                stray.append((len(rows) - 1, f"{dev[k].id} has parent {par} but is not among that parent's children: it appears nowhere in the schema"))
     await gwy.stop()
     return ops, rows, stray
 
@@ -151,8 +155,17 @@ def correspondence(ctx: Ctx, built: bool, thorough: bool):
         (ops, rows, stray), _ = gw.run_async(run_ops, seed, 25, mz)
         cases.append((mz, ops, rows))
         for k, what in stray[:1]:
-            ctx.violation("child-listed-by-a-parent-that-is-not-its-parent:set_parent", f"after request {ops[k]} (outcome {rows[k][0][0]}): {what}",
-                          {"max_zones": mz, "ops": ops[:k + 1]}, "operation-sequence")
+            sig = "child-not-listed-by-its-parent:set_parent" if "not among" in what else "child-listed-by-a-parent-that-is-not-its-parent:set_parent"
+            ctx.violation(sig, f"after request {ops[k]} (outcome {rows[k][0][0]}): {what}", {"max_zones": mz, "ops": ops[:k + 1]}, "operation-sequence")
+        for k in range(1, len(rows)):   # a refused request leaves the topology as it was
+            nd = 1 + len(DEVS)          # device rows: (parent, controller) of every device; an empty zone / DHW container may be created on the way
+            before = rows[k - 1][1:nd] + [x for x in rows[k - 1][nd:] if x[1] != 99 and any(x[2:])]
+            after = rows[k][1:nd] + [x for x in rows[k][nd:] if x[1] != 99 and any(x[2:])]
+            if rows[k][0][0] in (2, 3, 4, 5) and ops[k].startswith("SetParent") and before != after:
+                diff = [(a, b) for a, b in zip(before, after) if a != b][:2]
+                ctx.violation("refused-request-changed-the-topology:set_parent", f"request {ops[k]} was refused (outcome {rows[k][0][0]}) but changed {diff}",
+                              {"max_zones": mz, "ops": ops[:k + 1]}, "operation-sequence")
+                break
         ctx.case(("topology-ops", mz, tuple(ops)), True, "set_parent-sequence")
         # the property itself on the implementation: nothing that was placed is ever moved or replaced
         nd = 1 + len(DEVS)
